@@ -312,6 +312,47 @@ def _check_slot(res, cls, slot, vname, build, s):
     res.outcome((cls, slot, got))
 
 
+def _check_same(res, s):
+    """one string as interface and as destination of a call (a service
+    whose interface is named like its bus name): constructible iff the
+    string is both a valid interface name and a valid bus name"""
+    from txdbus import message as m
+    from mcx import refcodec as R
+    want = grammar.valid_interface_name(s) and grammar.valid_bus_name(s)
+    for cls, build in (
+            ('MethodCallMessage', lambda: m.MethodCallMessage(
+                '/p', 'M', interface=s, destination=s)),
+            ('SignalMessage', lambda: m.SignalMessage(
+                '/p', 'M', s, destination=s))):
+        res.count('evaluations')
+        try:
+            msg = build()
+            got = True
+        except Exception:
+            got = False
+        if got != want:
+            res.violation('C18/ctor/%s.interface=destination/%s/%s'
+                          % (cls, 'carries-invalid' if got else
+                             'refuses-valid', _shape(s)),
+                          '%s(interface=%r, destination=%r) %s; as an '
+                          'interface name the string is %s, as a bus name %s'
+                          % (cls, s, s, 'was constructed' if got else
+                             'was refused',
+                             'valid' if grammar.valid_interface_name(s)
+                             else 'invalid',
+                             'valid' if grammar.valid_bus_name(s)
+                             else 'invalid'),
+                          {'kind': 'same', 'string': s}, size=len(s))
+        elif got:
+            f = R.parse_message(msg.rawMessage)['fields']
+            if f.get('interface') != s or f.get('destination') != s:
+                res.violation('C18/ctor/%s.interface=destination/wire' % cls,
+                              '%s(interface=destination=%r) carries %r / %r'
+                              % (cls, s, f.get('interface'),
+                                 f.get('destination')),
+                              {'kind': 'same', 'string': s}, size=len(s))
+
+
 def _task_slots(task):
     alphabet, first, maxlen = task
     from mcx import fakes
@@ -324,6 +365,7 @@ def _task_slots(task):
         for cls, slot, vname, build in slots:
             _check_slot(res, cls, slot, vname, build, s)
             n += 1
+        _check_same(res, s)
         if grammar.valid_bus_name(s) or grammar.valid_object_path(s) \
                 or grammar.valid_member_name(s):
             res.count('nontrivial')
@@ -341,6 +383,8 @@ def _task_slots_special(_):
                 'a.1b', ':a.1b', 'a..b', 'a.b.', '.a.b', 'a:b.c', ':.a',
                 ':1.', '/a//b', '/a/', '//', 'a/b', 'M', 'M.N', '1M', 'M-',
                 ] + _long_names()
+    for s in specials + ['a-b.c', ':1.5', ':a.b', 'a.b-', 'com.ex-corp.Svc']:
+        _check_same(res, s)
     for s in specials:
         for cls, slot, vname, build in slots:
             _check_slot(res, cls, slot, vname, build, s)
@@ -499,6 +543,9 @@ def replay(data):
     res = core.Result()
     if data['kind'] == 'aftermath':
         res = _task_aftermath(0)
+        return [(s, v['what']) for s, v in res.violations.items()]
+    if data['kind'] == 'same':
+        _check_same(res, data['string'])
         return [(s, v['what']) for s, v in res.violations.items()]
     if data['kind'] == 'validator':
         _check_string(res, data['string'], _validators(), MarshallingError)
